@@ -4,8 +4,8 @@
     Part (i): the if-feature evaluator.  Model: Feature/IfFeature.v (meta/core.go
     IfFeature.Evaluate and ifFeatureEval.* after the two "fix: if-feature ..." commits), tied to
     the code by the C11 correspondence check. *)
-From Coq Require Import List Bool Arith Strings.Byte.
-From YV Require Import Feature.IfFeature Feature.IfFeatureProofs Feature.Guard Feature.GuardProofs.
+From Coq Require Import ZArith List Bool Arith Strings.Byte.
+From YV Require Import Feature.IfFeature Feature.IfFeatureProofs Feature.Guard Feature.GuardProofs Feature.Deviate Feature.DeviateProofs.
 Import ListNotations.
 
 (** ** (i) the evaluator implements RFC 7950 7.20.2 on every expression and every assignment *)
@@ -138,3 +138,91 @@ Theorem C11_guard_malformed_refuted :
   compile (AllBut []) [[x61]] [SData kf2_texts] = Loaded [[false]].
 Proof. exact lazy_malformed. Qed.
 Print Assumptions C11_guard_malformed_refuted.
+
+(** ** (iii) deviations.  Model: Feature/Deviate.v (meta/resolver.go applyDeviation after the
+    "fix: deviate ..." commits) *)
+
+(** FRAME.  Whatever the node kind, its properties and the deviation (add, replace and delete
+    statements together, any arguments): a property that no deviate statement names is unchanged. *)
+Theorem C11_deviate_frame : forall k d p p' f,
+  apply_deviation k d p = DOk p' -> names d f = false -> get f p' = get f p.
+Proof. exact deviate_frame. Qed.
+Print Assumptions C11_deviate_frame.
+
+(** EFFECT, per deviate kind and property (one statement naming one property; the other
+    properties are covered by the frame theorem). *)
+Theorem C11_deviate_add_effect : forall k p,
+  (forall u, has_type k = true -> u <> [] -> p_units p = [] ->
+     apply_deviation k (dev_add (w_units u)) p = DOk (set_units p u)) /\
+  (forall ms, has_musts k = true ->
+     apply_deviation k (dev_add (w_musts ms)) p = DOk (set_musts p (p_musts p ++ ms))) /\
+  (forall d, has_type k = true -> p_defaults p = None ->
+     apply_deviation k (dev_add (w_defaults [d])) p = DOk (set_defaults p (Some [d]))) /\
+  (forall us, is_list k = true ->
+     apply_deviation k (dev_add (w_unique us)) p = DOk (set_unique p (p_unique p ++ us))) /\
+  (forall b, has_dets k = true -> p_config p = None ->
+     apply_deviation k (dev_add (w_config b)) p = DOk (set_config p (Some b))) /\
+  (forall b, has_dets k = true -> p_mandatory p = None ->
+     apply_deviation k (dev_add (w_mandatory b)) p = DOk (set_mandatory p (Some b))) /\
+  (forall n, has_listdets k = true -> p_min p = None ->
+     apply_deviation k (dev_add (w_min n)) p = DOk (set_min p (Some n))) /\
+  (forall n, has_listdets k = true -> p_max p = None ->
+     apply_deviation k (dev_add (w_max n)) p = DOk (set_max p (Some n))).
+Proof. exact deviate_add_effect. Qed.
+Print Assumptions C11_deviate_add_effect.
+
+Theorem C11_deviate_replace_effect : forall k p,
+  (forall u, has_type k = true -> u <> [] -> p_units p <> [] ->
+     apply_deviation k (dev_replace (w_units u)) p = DOk (set_units p u)) /\
+  (forall t, has_type k = true ->
+     apply_deviation k (dev_replace (w_type t)) p = DOk (set_type p t)) /\
+  (forall d ds0, has_type k = true -> p_defaults p = Some ds0 ->
+     apply_deviation k (dev_replace (w_defaults [d])) p = DOk (set_defaults p (Some [d]))) /\
+  (forall b b0, has_dets k = true -> p_config p = Some b0 ->
+     apply_deviation k (dev_replace (w_config b)) p = DOk (set_config p (Some b))) /\
+  (forall b b0, has_dets k = true -> p_mandatory p = Some b0 ->
+     apply_deviation k (dev_replace (w_mandatory b)) p = DOk (set_mandatory p (Some b))) /\
+  (forall n n0, has_listdets k = true -> p_min p = Some n0 ->
+     apply_deviation k (dev_replace (w_min n)) p = DOk (set_min p (Some n))) /\
+  (forall n n0, has_listdets k = true -> p_max p = Some n0 ->
+     apply_deviation k (dev_replace (w_max n)) p = DOk (set_max p (Some n))).
+Proof. exact deviate_replace_effect. Qed.
+Print Assumptions C11_deviate_replace_effect.
+
+Theorem C11_deviate_delete_effect : forall k p,
+  (forall u, has_type k = true -> u <> [] -> p_units p = u ->
+     apply_deviation k (dev_delete (w_units u)) p = DOk (set_units p [])) /\
+  (forall u, has_type k = true -> u <> [] -> p_units p <> u ->
+     apply_deviation k (dev_delete (w_units u)) p = DErr) /\
+  (forall d, has_type k = true -> p_defaults p = Some [d] ->
+     apply_deviation k (dev_delete (w_defaults [d])) p = DOk (set_defaults p None)) /\
+  (forall d d', has_type k = true -> p_defaults p = Some [d'] -> d' <> d ->
+     apply_deviation k (dev_delete (w_defaults [d])) p = DErr) /\
+  (forall m, has_musts k = true -> In m (p_musts p) ->
+     apply_deviation k (dev_delete (w_musts [m])) p
+     = DOk (set_musts p (filter (fun c => negb (bytes_eqb m c)) (p_musts p)))) /\
+  (forall m, has_musts k = true -> ~ In m (p_musts p) ->
+     apply_deviation k (dev_delete (w_musts [m])) p = DErr).
+Proof. exact deviate_delete_effect. Qed.
+Print Assumptions C11_deviate_delete_effect.
+
+(** not-supported removes exactly the target from its parent's children (names of siblings are
+    distinct) and keeps the others in their order *)
+Theorem C11_not_supported_exact : forall A (t : text) (pre post : list (text * A)) v,
+  (forall c, In c (pre ++ post) -> fst c <> t) ->
+  remove_child t (pre ++ (t, v) :: post) = pre ++ post.
+Proof. exact remove_child_unique. Qed.
+Print Assumptions C11_not_supported_exact.
+
+Example C11_deviate_hyps_met :
+  has_type KLeaf = true /\ has_musts KLeaf = true /\ p_units p0 = [x63; x6d] /\ In [x61] (p_musts p0).
+Proof. exact (conj eq_refl (conj eq_refl (conj eq_refl (or_introl eq_refl)))). Qed.
+
+(** the pinned commit violated the effect statements (fixed in the repo by the
+    "fix: deviate ..." commits): add must appended the must twice; delete units failed when the
+    units matched and deleted when they did not *)
+Theorem C11_deviate_pinned_commit_refuted :
+  p_musts (old_add_musts p0 [[x6d]]) <> p_musts p0 ++ [[x6d]] /\
+  old_del_units p0 [x63; x6d] = None /\ old_del_units p0 [x6d; x6d] <> None.
+Proof. exact old_deviate_refuted. Qed.
+Print Assumptions C11_deviate_pinned_commit_refuted.
